@@ -390,8 +390,10 @@ Qed.
 (** a growth request of [n] more elements can be served (or needs no allocation / is refused by the checks) *)
 Definition adm_reserve (c : cfg) (w : world) (vid : nat) (n : N) : Prop :=
   forall vv, get_vec vid w = Some vv ->
-    vlen vv + n <= vcap vv \/ fixed_backend (vbk vv) \/ usize_max < vlen vv + n \/
-    (grow_ok c vv (vlen vv + n) /\ c_sz c * (vlen vv + n) <= alloc_limit).
+    (vlen vv + n <= vcap vv /\ c_sz c * vcap vv <= alloc_limit) \/ fixed_backend (vbk vv) \/ usize_max < vlen vv + n \/
+    (grow_ok c vv (vlen vv + n) /\ c_sz c * (vlen vv + n) <= alloc_limit) \/
+    (* ... or is refused before it reaches the allocator: its size in bytes is not representable or no valid layout *)
+    (resizable_backend (vbk vv) /\ c_sz c * vcap vv <= alloc_limit /\ layout_limit c (vbk vv) < c_sz c * (vlen vv + n)).
 Definition adm_shrink (c : cfg) (w : world) (vid : nat) : Prop :=
   forall vv, get_vec vid w = Some vv -> c_sz c * vcap vv <= alloc_limit.
 (** the contents of vector [v] fit a fresh storage of the same backend kind (always, for a fixed capacity) *)
@@ -1846,6 +1848,80 @@ Proof.
   - rewrite wuw_put. reflexivity.
 Qed.
 
+Lemma same_user_emit e u : is_user_event e = false -> same_user u (emit e u).
+Proof. intros H. unfold same_user, emit, uevents. cbn [unext ufuse ulog filter]. rewrite H. auto. Qed.
+
+Lemma reserve_layout_panic c v u xs n :
+  cfg_wf c -> Rep c v xs -> resizable_backend (vbk v) -> c_sz c * vcap v <= alloc_limit -> vlen v + n <= usize_max ->
+  layout_limit c (vbk v) < c_sz c * (vlen v + n) ->
+  let p := if usize_max <? c_sz c * (vlen v + n) then POverflow else PLayout in
+  exists u1 u2, reserve c n (v, u) = Panic p (v, u1) /\ reserve_exact c n (v, u) = Panic p (v, u2) /\
+                same_user u u1 /\ same_user u u2.
+Proof.
+  intros [Hal1 Hal2] HR Hres Hcap Hlen Hlim p.
+  assert (Hsz : c_sz c <> 0) by (intros E; rewrite E in Hlim; lia).
+  assert (Hll : alloc_limit <= layout_limit c (vbk v)).
+  { unfold layout_limit. destruct (vbk v); try lia; unfold alloc_limit, isize_max in *; lia. }
+  assert (Hgt : vcap v < vlen v + n) by nia.
+  unfold reserve, reserve_exact, bind, getv, of_ovf, of_opt, checked_add. cbn [fst snd].
+  destruct (N.leb_spec (vlen v + n) usize_max) as [_|]; [|lia]. unfold ret at 1 3. cbn [fst snd].
+  destruct (N.ltb_spec (vcap v) (vlen v + n)) as [_|]; [|lia].
+  replace (vlen v + n - vcap v) with (vlen v + n - vcap v) by reflexivity.
+  set (add := vlen v + n - vcap v).
+  assert (Hadd : vcap v + add = vlen v + n) by (unfold add; lia).
+  unfold mem_expand, mem_expand_exact, mem_resize, bind, getv, of_ovf, of_opt, checked_add, uadd. cbn [fst snd].
+  rewrite Hadd. destruct (N.leb_spec (vlen v + n) usize_max) as [_|]; [|lia].
+  destruct (vbk v) as [| | | |c0] eqn:Ebk; try (destruct Hres as [Hx|[cx Hx]]; discriminate).
+  - (* heap *)
+    unfold ret at 1 2. cbn [fst snd].
+    assert (Hdbl : saturating_mul (vcap v) 2 = vcap v * 2).
+    { unfold saturating_mul. destruct (N.leb_spec (vcap v * 2) usize_max) as [_|Hb]; [reflexivity|].
+      unfold alloc_limit, usize_max in *. nia. }
+    assert (Hmax : N.max (saturating_mul (vcap v) 2) (vlen v + n) = vlen v + n).
+    { rewrite Hdbl. apply N.max_r. unfold layout_limit in Hlim. try rewrite Ebk in Hlim. cbv beta iota in Hlim.
+      unfold alloc_limit, isize_max in *. nia. }
+    rewrite Hmax.
+    assert (Hhr : forall u0, heap_resize c (vlen v + n) (v, u0) = Panic p (v, u0)).
+    { intros u0. unfold heap_resize, bind, getv, of_ovf, of_opt, checked_mul. cbn [fst snd].
+      destruct (N.eqb_spec (vcap v) (vlen v + n)); [lia|].
+      destruct (N.eqb_spec (c_sz c) 0); [contradiction|].
+      destruct (N.eqb_spec (vlen v + n) 0); [lia|].
+      unfold p. destruct (N.leb_spec (c_sz c * (vlen v + n)) usize_max) as [Hok|Hov].
+      - destruct (N.ltb_spec usize_max (c_sz c * (vlen v + n))); [lia|].
+        unfold ret. cbn [fst snd]. unfold layout_limit in Hlim. try rewrite Ebk in Hlim. cbv beta iota in Hlim.
+        destruct (N.ltb_spec (isize_max - (c_al c - 1)) (c_sz c * (vlen v + n))); [reflexivity|lia].
+      - destruct (N.ltb_spec usize_max (c_sz c * (vlen v + n))); [reflexivity|lia]. }
+    exists u, u. cbn [fst snd]. rewrite ?Ebk. rewrite !Hhr. split; [reflexivity|]. split; [reflexivity|]. split; apply same_user_refl.
+  - (* relocating backend *)
+    assert (Hrr : forall u0, reloc_resize c (vlen v + n) (v, u0) = Panic p (v, u0)).
+    { intros u0. unfold reloc_resize, bind, getv, of_ovf, of_opt, checked_mul. cbn [fst snd].
+      unfold p. destruct (N.leb_spec (c_sz c * (vlen v + n)) usize_max) as [Hok|Hov].
+      - destruct (N.ltb_spec usize_max (c_sz c * (vlen v + n))); [lia|].
+        unfold ret. cbn [fst snd]. unfold layout_limit in Hlim. try rewrite Ebk in Hlim. cbv beta iota in Hlim.
+        destruct (N.ltb_spec alloc_limit (c_sz c * (vlen v + n))); [reflexivity|lia].
+      - destruct (N.ltb_spec usize_max (c_sz c * (vlen v + n))); [reflexivity|lia]. }
+    unfold emitv. cbn [fst snd]. unfold ret at 1 2. cbn [fst snd].
+    exists (emit (EExpand add) u), (emit (EResize (vlen v + n)) u).
+    cbn [fst snd]. rewrite ?Ebk. unfold emitv. cbn [fst snd]. rewrite !Hrr. split; [reflexivity|]. split; [reflexivity|]. split; apply same_user_emit; reflexivity.
+Qed.
+
+Lemma exec_panics_same_user c w st vid av vv (m : M Vec.st unit) p r u' :
+  WRep c w st -> get_a vid st = Some av -> get_vec vid w = Some vv -> VI c vv av -> ufuse (wuw w) = None ->
+  r = panic_res p [] st (unext (wuw w)) ->
+  m (vv, wuw w) = Panic p (vv, u') -> same_user (wuw w) u' ->
+  res_matches c w ((on_vec vid m;; ret (0, @nil N)) w) r.
+Proof.
+  intros HW Hg Hgv HV Hfuse -> E Hsu. destruct (same_user_events _ _ Hsu) as (He & Hn & Hf).
+  unfold bind. rewrite (on_vec_panic vid _ w vv p vv u' Hgv E).
+  cbn [res_matches panic_res s_out s_pk s_ret s_st s_evs s_nx].
+  split; [reflexivity|split; [reflexivity|split; [reflexivity|]]]. rewrite N.sub_diag.
+  constructor.
+  - apply (wrep_put_same c w st vid vv av); assumption.
+  - rewrite wuw_put. lia.
+  - rewrite wuw_put. congruence.
+  - rewrite wuw_put. exact He.
+Qed.
+
 Lemma exec_capacity c w st vid want exact r :
   cfg_wf c -> WRep c w st -> ufuse (wuw w) = None ->
   sp_capacity c st (unext (wuw w)) vid want exact = Some r ->
@@ -1876,15 +1952,29 @@ Proof.
         -- destruct exact; [discriminate|]. injection Hr as <-.
            apply (exec_panics_unchanged c w st vid av vv m PCapacity); auto. subst m.
            apply reserve_fixed; assumption.
-      * injection Hr as <-.
-        assert (Hres' : resizable_backend (vbk vv)). { rewrite (vi_bk _ _ _ HV). eapply acap_none_resizable; eauto. }
+      * assert (Hres' : resizable_backend (vbk vv)). { rewrite (vi_bk _ _ _ HV). eapply acap_none_resizable; eauto. }
         assert (Hnf : ~ fixed_backend (vbk vv)). { rewrite (vi_bk _ _ _ HV). eapply acap_none_not_fixed; eauto. }
+        cbv zeta in Hr. rewrite <- (vi_bk _ _ _ HV) in Hr.
+        destruct (N.ltb_spec (layout_limit c (vbk vv)) (c_sz c * (vlen vv + n))) as [Hbig|Hsmall].
+        { (* refused before the allocator is asked *)
+          injection Hr as <-.
+          assert (Hll : alloc_limit <= layout_limit c (vbk vv)).
+          { destruct Hwf as [_ Hal]. unfold layout_limit. destruct (vbk vv); unfold alloc_limit, isize_max in *; lia. }
+          assert (Hcapl : c_sz c * vcap vv <= alloc_limit).
+          { destruct Hadm as [[Hr1 Hr2]|[Hf|[Ho|[[Hg1 Hg2]|(_ & Hcl & _)]]]]; [exact Hr2|contradiction|lia|lia|exact Hcl]. }
+          assert (Hnoroom : vcap vv < vlen vv + n) by nia.
+          destruct (reserve_layout_panic c vv (wuw w) (a_xs av) n Hwf HR Hres' Hcapl Hnov Hbig) as (u1 & u2 & E1 & E2 & S1 & S2).
+          set (pp := if usize_max <? c_sz c * (vlen vv + n) then POverflow else PLayout) in *.
+          subst m. destruct exact.
+          - apply (exec_panics_same_user c w st vid av vv _ pp _ u2); auto.
+          - apply (exec_panics_same_user c w st vid av vv _ pp _ u1); auto. }
+        injection Hr as <-.
         destruct (N.le_gt_cases (vlen vv + n) (vcap vv)) as [Hroom|Hno].
         -- destruct (reserve_noop c vv (wuw w) (a_xs av) n HR Hroom) as [E1 E2].
            apply (exec_keeps c w st vid av vv m); auto.
            exists vv, (wuw w). subst m. split; [destruct exact; assumption|].
            split; [exact HR|]. split; [reflexivity|]. split; [apply same_user_refl|auto].
-        -- destruct Hadm as [Hr1|[Hf|[Ho|[Hg1 Hg2]]]]; try lia; try contradiction.
+        -- destruct Hadm as [Hr1|[Hf|[Ho|[[Hg1 Hg2]|(_ & _ & Hb)]]]]; try lia; try contradiction.
            apply (exec_keeps c w st vid av vv m); auto. subst m. destruct exact.
            ++ destruct (reserve_exact_grows c vv (wuw w) (a_xs av) n Hwf HR Hres' Hno Hnov Hg2) as (v' & u' & E & H1 & H2 & H3 & H4).
               exists v', u'. split; [exact E|]. split; [exact H1|]. split; [exact H3|]. split; [exact H4|]. intros F; contradiction.
